@@ -86,8 +86,9 @@ class Sim:
             x = ev[1]
             self.nsend += 1
             mid = f"{x.lower()}{self.nsend}"
-            # side A's application spells out PossDupFlag=N on its originals (legal; retransmission must still work)
-            r = w.send(x, FIXMessage("D", {11: mid, 55: "X", 43: "N"} if x == "A" else {11: mid, 55: "X"}))
+            # side A's application spells out PossDupFlag=N on its originals (legal; retransmission must still work);
+            # side B's carry non-ASCII text (utf-8 on the wire: sizes in characters and bytes differ in the journaled copy)
+            r = w.send(x, FIXMessage("D", {11: mid, 55: "X", 43: "N"} if x == "A" else {11: mid, 55: "X", 58: "Z\u00fcrich \u6771"}))
             if r[0] == "ok":
                 self.accepted[x].append(mid)
                 self.order[x].append(mid)
